@@ -385,3 +385,97 @@ Fixpoint last_kv (pre : kv) (obs_ : list obs) : kv :=
    the keys it can name, and what it last saw executed is executed in the final contents *)
 Definition thread_judge (V : list key) (init : kv) (ops : list op) (obs_ : list obs) (fin : kv) : bool :=
   hist_ok V init ops obs_ && keeps_executed V (last_kv init obs_) fin.
+
+(* ---------------------------------------------------------------------------------------------- *)
+(* Two operations meeting INSIDE a call.  The BTC executor holds propMutex around the whole
+   proposalsForExecution (the admission of a delivery: per proposal a status read and, if it is to be
+   executed, the "pending" mark) and around the whole storeProposalsStatus (the end of an execution),
+   so of two such operations on the same proposals made by two goroutines one happens entirely before
+   the other: the admissible outcomes of "a, and b let in at some store call of a" are the two atomic
+   orders.  The scripted interleavings of the runner (harness/cmd/c17/script.go) park one operation at
+   each of its store calls in turn, start the other, and compare the history - in the order in which
+   the two completed - with the atomic model of that order. *)
+
+Definition script_orders (prefix : list op) (a b : op) (suffix : list op) : list (list op) :=
+  [prefix ++ [a; b] ++ suffix; prefix ++ [b; a] ++ suffix].
+
+(* The admission at the granularity of its two kinds of store calls: first the status reads (the
+   candidates: the proposals read as missing / failed), then the "pending" marks.  [AdmitRead] and
+   [AdmitWrite] are the two halves of one delivery; any other operation can be scheduled between them.
+   [with_mutex = true]  is the code: the mutex is taken before the reads and released after the marks,
+                        so an operation that needs it waits ([OStuck]: attempted, no effect);
+   [with_mutex = false] is an admission that reads the statuses WITHOUT the mutex and takes it only for
+                        the marks - not the code; kept to state what goes wrong with it. *)
+Fixpoint adm_read (ks acc : list key) (s : sto) : option (list key) * sto :=
+  match ks with
+  | [] => (Some (rev acc), s)
+  | k :: r =>
+      match read k s with
+      | (None, s1) => (None, s1)
+      | (Some v, s1) => if startable v then adm_read r (k :: acc) s1 else adm_read r acc s1
+      end
+  end.
+
+Fixpoint adm_write (cs acc : list key) (s : sto) : option (list key) * sto :=
+  match cs with
+  | [] => (Some (rev acc), s)
+  | k :: r =>
+      match write k Pending s with
+      | (false, s1) => (None, s1)
+      | (true, s1) => adm_write r (k :: acc) s1
+      end
+  end.
+
+Inductive sop := Whole (o : op) | AdmitRead (ks : list key) | AdmitWrite.
+
+(* the executor state and the candidates of the admission in progress *)
+Record sstate := mkS { s_x : state; s_adm : option (list key) }.
+
+Section Split.
+  Variable with_mutex : bool.
+
+  Definition sstep (o : sop) (z : sstate) : sstate * out :=
+    let x := s_x z in
+    let s := clear (st x) in
+    match o with
+    | Whole o' => let (x', ou) := step o' x in (mkS x' (s_adm z), ou)
+    | AdmitRead ks =>
+        if with_mutex && locked x then (mkS (mkState s true (batches x)) (s_adm z), OStuck)
+        else match adm_read ks [] s with
+             | (Some cs, s') => (mkS (mkState s' (with_mutex || locked x) (batches x)) (Some cs), OExec)
+             | (None, s') => (mkS (mkState s' (locked x) (batches x)) None, ODeliver None)
+             end
+    | AdmitWrite =>
+        match s_adm z with
+        | None => (mkS (mkState s (locked x) (batches x)) None, OExec)
+        | Some cs =>
+            if negb with_mutex && locked x then (mkS (mkState s true (batches x)) (Some cs), OStuck)
+            else match adm_write cs [] s with
+                 | (Some sel, s') => (mkS (mkState s' false (batches x ++ [sel])) None, ODeliver (Some sel))
+                 | (None, s') => (mkS (mkState s' false (batches x)) None, ODeliver None)
+                 end
+        end
+    end.
+
+  Fixpoint srun (ops : list sop) (z : sstate) : list obs :=
+    match ops with
+    | [] => []
+    | o :: r => let (z', ou) := sstep o z in (ou, s_failed (st (s_x z')), s_kv (st (s_x z'))) :: srun r z'
+    end.
+
+  Fixpoint sfinal (ops : list sop) (z : sstate) : sstate :=
+    match ops with
+    | [] => z
+    | o :: r => sfinal r (fst (sstep o z))
+    end.
+End Split.
+
+(* no admission in progress, or: the mutex is held for it and none of its candidates is recorded
+   executed *)
+Definition adm_inv (z : sstate) : Prop :=
+  match s_adm z with
+  | None => True
+  | Some cs => locked (s_x z) = true /\ forall k, In k cs -> is_exec (get (s_kv (st (s_x z))) k) = false
+  end.
+
+Definition sinit (m : kv) : sstate := mkS (init_state m []) None.
